@@ -173,6 +173,75 @@ pub fn random_build(r: &mut Rng, maxlen: usize) -> Build {
     }
 }
 
+/// Re-draw the presentation of a well-formed line: everything the statements about reassembly
+/// and decoding give no meaning to (talker, VDM/VDO/other formatter, start delimiter, tag block,
+/// channel, leading zeros of the numbers, checksum spelling, line ending, and - on a non-final
+/// fragment - the fill count). Returns the channel byte and fill value written.
+pub fn dress(r: &mut Rng, b: &mut Build, non_final: bool) -> (u8, u8) {
+    b.talker = if r.chance(3, 4) { **r.pick(&TALKERS) } else { [field_byte(r), field_byte(r)] };
+    b.formatter = match r.below(5) {
+        0 | 1 => *b"VDO",
+        2 => [field_byte(r), field_byte(r), field_byte(r)],
+        _ => *b"VDM",
+    };
+    b.delim = if r.chance(1, 3) { b'$' } else { b'!' };
+    b.tag = if r.chance(1, 4) { Some(b"s:2573345,c:1696241893*00".to_vec()) } else { None };
+    let ch = *r.pick(b"AB12");
+    b.chan = vec![ch];
+    if let Ok(v) = b.n.parse::<u32>() {
+        b.n = num_string(r, v);
+    }
+    if let Ok(v) = b.k.parse::<u32>() {
+        b.k = num_string(r, v);
+    }
+    if let Ok(v) = b.id.parse::<u32>() {
+        b.id = num_string(r, v);
+    }
+    let mut fill = b.fill.parse::<u8>().unwrap_or(0);
+    if non_final {
+        fill = r.below(6) as u8;
+    }
+    b.fill = if r.chance(1, 6) { format!("0{}", fill) } else { fill.to_string() };
+    b.hexstyle = r.below(5) as u8;
+    b.tail = match r.below(4) {
+        0 => b"\r\n".to_vec(),
+        1 => b"\r".to_vec(),
+        _ => vec![],
+    };
+    (ch, fill)
+}
+
+/// a line the statements say is inert between the fragments of an open group
+pub fn inert_between(r: &mut Rng, group_id: Option<u8>, group_n: u8, next_k: u8) -> (Vec<u8>, bool, &'static str) {
+    match r.below(5) {
+        0 => (nmea_ref::mk(1, 1, None, b"15RTgt0PAso;90TKcjM8h6g208CQ", 0), true, "unfrag-decodable"),
+        1 => (nmea_ref::mk(1, 1, Some(9), b"zzzz", 0), true, "unfrag-undecodable"),
+        2 => {
+            let mut b = Build::simple(1, 1, None, b"A", b"15RTgt0PAso;90TKcjM8h6g208CQ", 0);
+            b.cks = Some(nmea_ref::xor(&b.body()) ^ 0x40);
+            (b.line(), false, "bad-checksum")
+        }
+        3 => (b"$GPGGA,123519,4807.038,N,01131.000,E,1,08,0.9,545.4,M,46.9,M,,*47".to_vec(), false, "malformed"),
+        _ => {
+            // sequencing-rejected stranger: another id, half of the time with exactly the count
+            // and number the open group expects next; ids that an implementation might confuse
+            // with "no id" (255, 0) are preferred partners of a group without id and vice versa
+            let other = match (group_id, r.below(3)) {
+                (None, 0) => Some(255),
+                (None, 1) => Some(0),
+                (Some(255), 0) | (Some(0), 0) => None,
+                (Some(_), 1) => None,
+                (g, _) => Some(g.map_or(7, |x| ((x as u16 + 5) % 10) as u8)),
+            };
+            if r.bool() {
+                (nmea_ref::mk(group_n, next_k, other, &uniq_payload(7100), 0), false, "stranger-next-number")
+            } else {
+                (nmea_ref::mk(5, r.range(2, 5) as u8, other, &uniq_payload(7100), 0), false, "stranger")
+            }
+        }
+    }
+}
+
 pub fn call_kind(c: &Call) -> &'static str {
     match c {
         Call::Done(o) => o.kind(),
